@@ -312,6 +312,10 @@ func JudgeStep(st *Step, rep Reporter) Doc {
 	}
 
 	// expiry
+	if post.present() && !post.hasBody() && post.ExpErr != "missing" {
+		// C01 lists GetExpiry among the reads that report a deleted key as missing
+		rep([]string{"C01", "C05"}, "post.exp.tombstone", fmt.Sprintf("after %s the key has no body, yet GetExpiry answers (expiry %d, error class %q) instead of reporting it missing", o.Variant(), post.Exp, post.ExpErr))
+	}
 	if !ex.DCExp && post.present() {
 		if post.ExpErr == "" {
 			if post.Exp < ex.ExpLo || post.Exp > ex.ExpHi {
